@@ -248,6 +248,44 @@ def monitor_drain_tail(case, ev):
                sum(1 for e in ev if e['e'] == 'r' and e['port'] == 'DI' and e.get('got')), rounds, need))
 
 
+def l2_data(addr, n):
+    return [((addr + i) * 37 + 11) & 0xff for i in range(n)]
+
+
+def monitor_pair(p):
+    """two real engines relayed by the harness, drained at the same time with cross traffic,
+    then served fairly (engines ticked, wire / L2s / L1 sides / controllers pumped until
+    nothing moves) for tail_needed = 4*outstanding+12 rounds: every L1 request must be answered
+    exactly once with the owner's data and both drains must be acknowledged"""
+    for nm, side in (('A', p['side_a']), ('B', p['side_b'])):
+        if side['crashed']:
+            return 'engine %s panicked in a two-engine run on protocol-respecting traffic' % nm
+        byid = {r['id']: r for r in side['requests']}
+        seen = set()
+        for a in side['answers']:
+            if a['rspto'] not in byid:
+                return 'engine %s: answer for an ID its L1 side never sent: %s' % (nm, a['rspto'])
+            if a['rspto'] in seen:
+                return 'engine %s: request %s answered twice' % (nm, a['rspto'])
+            seen.add(a['rspto'])
+            q = byid[a['rspto']]
+            if q['kind'] == 'KRead' and (a['kind'] != 'KDataReady' or a['data'] != l2_data(q['addr'], q['size'])):
+                return 'engine %s: read %s of address %d answered with the wrong data' % (nm, q['id'], q['addr'])
+            if q['kind'] == 'KWrite' and a['kind'] != 'KWriteDone':
+                return 'engine %s: write %s answered with %s' % (nm, q['id'], a['kind'])
+    if p['tail_rounds'] < p['tail_needed']:
+        return None
+    for nm, side in (('A', p['side_a']), ('B', p['side_b'])):
+        lost = [r['id'] for r in side['requests'] if r['id'] not in {a['rspto'] for a in side['answers']}]
+        if lost or side['drain_acks'] < side['drain_requests']:
+            other = p['side_b'] if nm == 'A' else p['side_a']
+            return ('two engines drained at the same time with accesses to each other\'s memory on the wire, then served fairly for %d rounds: '
+                    'engine %s has %d of %d requests never answered (first: %s) and %d of %d drains never acknowledged; peer: %d of %d answered, %d of %d drains acknowledged'
+                    % (p['tail_rounds'], nm, len(lost), len(side['requests']), lost[0] if lost else '-', side['drain_requests'] - side['drain_acks'], side['drain_requests'],
+                       len(other['answers']), len(other['requests']), other['drain_acks'], other['drain_requests']))
+    return None
+
+
 def monitor(case):
     ev = case['events']
     if any(e.get('crash') for e in ev) and not case.get('hostile'):
@@ -308,7 +346,7 @@ def strip(case):
     c['hostile'] = case.get('hostile', False)
     if case.get('lazy'):
         c['lazy'] = True
-    for k in ('busy', 'serve', 'tail_start', 'drain_tail'):
+    for k in ('busy', 'serve', 'tail_start', 'drain_tail', 'pair'):
         if k in case:
             c[k] = case[k]
     c['events'] = [{'e': e['e'], **({'port': e['port']} if 'port' in e else {}),
@@ -670,7 +708,7 @@ def main(argv):
             return True
 
         # ---- run the implementation
-        dcases, scases, rcases = [], [], []
+        dcases, scases, rcases, pairs2 = [], [], [], []
         if replay_file:
             obj = json.load(open(replay_file))
             kind = obj.get('kind', 'rdma')
@@ -683,6 +721,13 @@ def main(argv):
                 dcases, log = run_harness(binary, 'dist', cases=src)
             elif kind == 'split':
                 scases, log = run_harness(binary, 'split', cases=src)
+            elif kind == 'pair':
+                out, log = run_harness(binary, 'pair', seed=obj['seed'], n=obj['index'] + 1)
+                msg = monitor_pair(out[obj['index']]) if out else 'harness failed'
+                print('# replayed two-engine history %d of seed %d -> %s' % (obj['index'], obj['seed'], msg or 'every request answered once, both drains acknowledged'))
+                if msg:
+                    rep.violation({'property': PROP, 'kind': 'pair', 'what': msg, 'seed': obj['seed'], 'index': obj['index']}, text=msg)
+                return rep.finish()
             elif kind == 'e2e':
                 c0 = src[0]
                 pairs, _ = e2e_stream(binary, thorough, only=[(c0['bench'], c0['size'], c0['gpus'], c0['unified'], c0['timing'])])
@@ -712,6 +757,11 @@ def main(argv):
             gd, log2 = run_harness(binary, 'dist', seed=vlib.seed(), n=n_drv)
             gs, log3 = run_harness(binary, 'split', seed=vlib.seed(), n=n_drv)
             rcases, log4 = run_harness(binary, 'route')
+            pairs2, log5 = run_harness(binary, 'pair', seed=vlib.seed(), n=(300 if thorough else 30))
+            pairs2 = pairs2 or []
+            for pc in pairs2:
+                if gen is not None:
+                    gen += [pc['A'], pc['B']]
             rcases = rcases or []
             if gen is None or gd is None or gs is None:
                 rep.obligation('harness run', False)
@@ -732,6 +782,7 @@ def main(argv):
         dbad = [(i, m) for i, m in ((i, monitor_dist(c)) for i, c in enumerate(dcases)) if m]
         sbad = [(i, m) for i, m in ((i, monitor_split(c)) for i, c in enumerate(scases)) if m]
         rbad = [(i, m) for i, m in ((i, monitor_route(c)) for i, c in enumerate(rcases)) if m]
+        pbad = [(i, m) for i, m in ((i, monitor_pair(c)) for i, c in enumerate(pairs2)) if m]
 
         # ---- correspondence with the models
         okc, mism, clog = vlib.eval_cases(PROP, H_RDMA, [c['coq'] for c in cases], shard_size=20) if cases else (True, [], '')
@@ -783,6 +834,9 @@ def main(argv):
         'rdma_answers_observed': sum(1 for c in cases for e in c['events'] if e['e'] == 'r' and e['port'] in ('RI', 'DO') and e.get('got')),
         'rdma_drain_acks_observed': sum(1 for c in cases for e in c['events'] if e['e'] == 'r' and e['port'] == 'CT' and e.get('got') and e['got']['flags'] == FL_DRAIN_RSP),
         'rdma_hostile_cases': sum(1 for c in cases if c.get('hostile')),
+        'rdma_two_engine_histories': len(pairs2),
+        'rdma_two_engine_requests_answered': sum(len(pc[k]['answers']) for pc in pairs2 for k in ('side_a', 'side_b')),
+        'rdma_two_engine_drains_acknowledged': sum(pc[k]['drain_acks'] for pc in pairs2 for k in ('side_a', 'side_b')),
         'rdma_fair_drain_tails': sum(1 for c in cases if c.get('drain_tail')),
         'rdma_fair_drain_tails_acknowledged': sum(1 for c in cases if c.get('drain_tail') and any(e['e'] == 'r' and e.get('port') == 'CT' and e.get('got') and e['got']['flags'] == FL_DRAIN_RSP for e in c['events'][c['drain_tail']:])),
         'rdma_busy_fair_tail_cases': sum(1 for c in cases if c.get('busy')),
@@ -801,7 +855,7 @@ def main(argv):
         'whole_run_teardown_race_retries': sum(r.get('teardown_race_retries', 0) for r in runs),
         'whole_runs': [{'cmd': ' '.join(r['cmd']), 'passed': r['passed'], 'wall_s': r['wall_s']} for r in runs],
         'model_mismatches': len(mism) + len(dmism) + len(smism) + len(rmism),
-        'monitor_failures': len(bad) + len(dbad) + len(sbad) + len(rbad) + len(ebad) + len(run_fail),
+        'monitor_failures': len(bad) + len(dbad) + len(sbad) + len(rbad) + len(ebad) + len(pbad) + len(run_fail),
     })
     rep.samples = [{'buf': c['buf'], 'w': c['w'], 'events': [(e['e'], e.get('port'), (e.get('msg') or {}).get('id')) for e in c['events'][:20]]} for c in cases[:2]]
 
@@ -811,7 +865,7 @@ def main(argv):
         out, _ = run_harness(binary, 'rdma', cases=[strip(c)])
         return bool(out) and env_ok(out[0]) and monitor(out[0]) is not None
 
-    if not bad and not dbad and not sbad and not rbad and not ebad and not run_fail and (mism or not okc) and not replay_file:
+    if not bad and not dbad and not sbad and not rbad and not ebad and not pbad and not run_fail and (mism or not okc) and not replay_file:
         # the model and the engine part ways: look harder for a history on which the
         # engine itself breaks the property (more seeds, control back-pressure and
         # hostile streams emphasised)
@@ -841,6 +895,12 @@ def main(argv):
     elif sbad:
         i, msg = sbad[0]
         rep.violation({'property': PROP, 'kind': 'split', 'what': msg, 'case': scases[i], 'replay_cmd': './check C18 --replay <this file>'}, text=msg)
+    elif pbad:
+        i, msg = pbad[0]
+        pc = pairs2[i]
+        rep.violation({'property': PROP, 'kind': 'pair', 'what': msg, 'seed': vlib.seed(), 'index': i,
+                       'case': {k: pc[k] for k in ('side_a', 'side_b', 'tail_rounds', 'tail_needed', 'wire_left')},
+                       'engine_a': strip(pc['A']), 'engine_b': strip(pc['B']), 'replay_cmd': './check C18 --replay <this file>'}, text=msg)
     elif rbad:
         i, msg = rbad[0]
         rep.violation({'property': PROP, 'kind': 'route', 'what': msg, 'case': rcases[i], 'replay_cmd': './check C18 (the routing check is deterministic and runs on every check)'}, text=msg)
